@@ -46,6 +46,12 @@ type Layout struct {
 	TfhdDur bool `json:"tfhd_dur,omitempty"`
 	// VStart: the first video sample has decode time VStart frames (video-only layouts)
 	VStart int `json:"vstart,omitempty"`
+	// ShortMPD (number form, >= 2 segments): a second MPD "Manifest_short.mpd" names the same representations with
+	// @endNumber one below the last segment. The representation is defined by the first MPD that names it.
+	ShortMPD bool `json:"short_mpd,omitempty"`
+	// TrexStale (with TfhdDur and audio): the audio init segment's trex box announces twice the real default sample duration;
+	// every fragment overrides it in its tfhd, which takes precedence
+	TrexStale bool `json:"trex_stale,omitempty"`
 }
 
 type Clock struct{ Timescale, FrameDur int }
@@ -489,7 +495,20 @@ func (l Layout) Materialize(root string) (string, error) {
 	// audio
 	if l.Audio != "" {
 		ap := pools[l.Audio]
-		if err := os.WriteFile(filepath.Join(tmp, "A48/init.mp4"), ap.init, 0o644); err != nil {
+		ainit := ap.init
+		if l.TrexStale && l.TfhdDur {
+			f, err := mp4.DecodeFileSR(bits.NewFixedSliceReader(ap.init))
+			if err != nil {
+				return "", err
+			}
+			f.Init.Moov.Mvex.Trex.DefaultSampleDuration = uint32(2 * l.AFrameDur())
+			var buf bytes.Buffer
+			if err := f.Init.Encode(&buf); err != nil {
+				return "", err
+			}
+			ainit = buf.Bytes()
+		}
+		if err := os.WriteFile(filepath.Join(tmp, "A48/init.mp4"), ainit, 0o644); err != nil {
 			return "", err
 		}
 		fd := l.AFrameDur()
@@ -544,6 +563,13 @@ func (l Layout) Materialize(root string) (string, error) {
 	}
 	if err := os.WriteFile(filepath.Join(tmp, "Manifest.mpd"), []byte(l.mpd(vTimeline.String(), aTimeline.String(), tTimeline.String())), 0o644); err != nil {
 		return "", err
+	}
+	if l.ShortMPD && l.Form == "number" && len(l.VSegFrames) >= 2 {
+		short := strings.ReplaceAll(l.mpd("", "", ""), `<SegmentTemplate startNumber="`+fmt.Sprint(l.StartNumber)+`"`,
+			fmt.Sprintf(`<SegmentTemplate startNumber="%d" endNumber="%d"`, l.StartNumber, l.StartNumber+len(l.VSegFrames)-2))
+		if err := os.WriteFile(filepath.Join(tmp, "Manifest_short.mpd"), []byte(short), 0o644); err != nil {
+			return "", err
+		}
 	}
 	for _, d := range []string{"A48", "T1", "thumbs", "V600"} {
 		ents, _ := os.ReadDir(filepath.Join(tmp, d))
